@@ -123,8 +123,13 @@ static bool parse_case(char *line, struct cas *c)
             c->ne = (int)tokll(&sp);
             if (c->ne > MAXE) { fprintf(stderr, "too many edges\n"); exit(2); }
             for (int i = 0; i < c->ne; i++) {
-                const long long m = tokll(&sp); const int e = (int)tokll(&sp);
-                c->edges[i] = (double)org + dec(m, e);
+                /* ref 0: org + m 10^-e; ref 1: lower support bound + m 10^-e; ref 2: upper support bound - m 10^-e
+                 * (the bounds are the doubles that are also passed to the sampler; "lo"/"hi" precede "edges" in the plan) */
+                const int ref = (int)tokll(&sp); const long long m = tokll(&sp); const int e = (int)tokll(&sp);
+                c->edges[i] = (ref == 1) ? c->lo + dec(m, e) : (ref == 2) ? c->hi - dec(m, e) : (double)org + dec(m, e);
+                if ((ref == 1 && !c->haslo) || (ref == 2 && !c->hashi) || (i > 0 && !(c->edges[i] > c->edges[i - 1]))) {
+                    fprintf(stderr, "smp_replay: bad edge %d of case %s\n", i, c->id); exit(2);
+                }
             }
         }
         else if (strcmp(t, "bins") == 0) {
